@@ -54,7 +54,7 @@ def gen(W):
     sc["threads"] = W.choice([1, 2])
     sc["expose"] = W.chance(0.3)
     sc["log_socket_errors"] = W.chance(0.5)
-    sc["kind"] = W.choice(["gen", "list", "write", "file", "ufile"])
+    sc["kind"] = W.choice(["gen", "list", "write", "file", "ufile", "sized"])
     sc["status"] = W.choice(["200 OK", "204 No Content", "304 Not Modified"], p0=0.8)
     n = W.draw(5)
     sc["sizes"] = [W.choice([7, 0, 1, 300, 3000]) for _ in range(n)]
@@ -93,7 +93,9 @@ def steps_of(sc):
     if sc["kind"] == "write":
         st += [["write", i] for i in range(n)]
         st += ["end", "close"]
-    elif sc["kind"] in ("gen", "list"):
+    elif sc["kind"] in ("gen", "list", "sized"):
+        if sc["kind"] == "sized":
+            st += ["len"]
         st += [["next", i] for i in range(n)]
         st += ["end", "close"]
     elif sc["kind"] == "file":
@@ -122,6 +124,10 @@ def one_run(sc, placement, sub_id):
         app_headers.append(("X-Owner", "Zo\u0142a \u20ac " + SECRET))
     script = {"status": sc["status"], "headers": app_headers, "cl": cl, "chunks": chunks,
               "kind": sc["kind"], "sr_late": sc["sr_late"] and sc["kind"] in ("gen", "list")}
+    if sc["kind"] == "sized":
+        # a generator-backed iterable that also has a __len__ (application code: it may raise)
+        script["kind"] = "gen"
+        script["sized"] = True
     if sc["method"] == "POST":
         script["read_input"] = True
     exc_cls = None
